@@ -105,6 +105,7 @@ LastWriterWins ==
 RelAgrees ==
   \A O \in {MinStart(Desc, base), A(0), SegStart(s1, base)} :
      RelOK(Desc, base, O) => LiftCells(ImageRel(Desc, base, O), O) = Image(Desc, base)
+QuickAgrees == ImageQ(Desc, base) = Image(Desc, base)
 RelUsable == nseg \in {1, 3} /\ s1.type = 1 => RelOK(Desc, base, MinStart(Desc, base))
 
 \* spot properties of the definition that a reader expects
@@ -127,5 +128,5 @@ Spot ==
        /\ Sym("u", AddA(A(6), base)) \in SymUpper(Desc, base)
        /\ Sym("u", AddA(A(4), base)) \notin SymUpper(Desc, base)
 
-AllOK == WF /\ Law /\ LastWriterWins /\ RelAgrees /\ RelUsable /\ Spot
+AllOK == WF /\ Law /\ LastWriterWins /\ RelAgrees /\ QuickAgrees /\ RelUsable /\ Spot
 =============================================================================
